@@ -364,8 +364,7 @@ Section Guards.
               | Some f => factory_default f (v_default v)
               end
        | Some TQName =>
-           negb (v_nillable v)
-           && match v_clazz v with None => true | Some _ => false end
+           match v_clazz v with None => true | Some _ => false end
            && match v_tokens_factory v with None => true | Some _ => false end
            && match v_factory v with
               | None => match v_default v with DNone => true | _ => false end
@@ -392,8 +391,8 @@ Section Guards.
                               | _ => false
                               end
               | Some f, None => factory_default f (v_default v)
-              | Some f, Some _ => negb (v_nillable v) && factory_default f (v_default v)
-              | None, Some f => negb (v_nillable v) && factory_default f (v_default v)
+              | Some f, Some _ => factory_default f (v_default v)
+              | None, Some f => factory_default f (v_default v)
               end
        | None => false
        end.
@@ -674,7 +673,7 @@ Section Guards.
         end
     | None, Some tf =>
         match x with
-        | VList t [] => Bool.eqb t (is_tuple tf)
+        | VList t [] => Bool.eqb t (is_tuple tf) && negb (v_nillable v)   (* [] in a nillable field: <f xsi:nil="true"/> reads None (C01-F1) *)
         | _ => fits_tokens v tf x
         end
     | Some f, Some tf =>
